@@ -219,6 +219,56 @@ func (Hooks) Unsupported(what string, site string) {
 	s.mu.Unlock()
 }
 
+// SelectPre yields before a multi-case select and returns the caller's token
+// and the index of the case to try first. The start index is a function of
+// the schedule so far (no extra choice stream): replayable, and it varies as
+// schedules vary.
+func (Hooks) SelectPre(site string, n int) (int, int) {
+	s, g := cur()
+	if g == nil {
+		return -1, 0
+	}
+	s.park(g, pending{phase: phPre, kind: KYield, site: site})
+	start := 0
+	if n > 0 {
+		start = (s.steps + g.ID) % n
+	}
+	return g.ID, start
+}
+
+// SelectBlock is called when no case was ready and the goroutine is about to
+// block in the real select. FIFO matching of operations is no longer known
+// for these channels, so their happens-before edges are over-approximated.
+func (Hooks) SelectBlock(tok int, site string, chans []interface{}) {
+	s := current.Load()
+	if s == nil || s.byTok(tok) == nil {
+		return
+	}
+	s.mu.Lock()
+	for _, c := range chans {
+		p := pending{obj: objKey(c), keep: c}
+		s.chanOf(&p).weak = true
+	}
+	s.Probes["blocking_multi_case_select"]++
+	s.mu.Unlock()
+}
+
+func (Hooks) SelectPost(tok int, site string, ch interface{}, send bool, taken int) {
+	s := current.Load()
+	if s == nil {
+		return
+	}
+	g := s.byTok(tok)
+	if g == nil {
+		return
+	}
+	kind := KSelRecv
+	if send {
+		kind = KSelSend
+	}
+	s.park(g, pending{phase: phPost, kind: kind, obj: objKey(ch), keep: ch, site: site, aux: taken})
+}
+
 // Yield is a plain yield point (woven time.Sleep / runtime.Gosched). It
 // reports whether the caller is simulated; if not the woven code performs the
 // real call.
@@ -238,6 +288,14 @@ func (s *Sim) Yield(site string) {
 		return
 	}
 	s.park(g, pending{phase: phPre, kind: KYield, site: site})
+}
+
+// CloseChan lets harness code close a channel that woven code receives from
+// (e.g. the reaper of concurrent.Lazily) under the simulator's eyes.
+func (s *Sim) CloseChan(ch interface{}, closeIt func()) {
+	tok := Global.Pre(int(KClose), ch, "harness:close")
+	closeIt()
+	Global.Post(tok, int(KClose), ch, "harness:close", 0)
 }
 
 // Go starts a further client goroutine from inside a client: the simulator
